@@ -204,3 +204,61 @@ Proof. apply progress_to_dist_inside; [exact nan_not_lt_zero|exact nan_not_gt_on
 
 Lemma dist_nil : dist [] = D.zero.
 Proof. reflexivity. Qed.
+
+(* ---------- progress 0 on a curve whose later cumulative lengths are positive ---------- *)
+
+(* the search when only element 0 compares Equal and every later one Greater *)
+Lemma bs_loop_first {P} (f : P -> comparison) (l : list P) fuel : forall size,
+  (forall j p, 1 <= j -> nth_error l j = Some p -> f p = Gt) ->
+  size <= length l -> bs_loop fuel f l 0 size = 0.
+Proof.
+  induction fuel as [|k IH]; intros size Hgt Hs; cbn [bs_loop]; [reflexivity|].
+  destruct (Nat.leb size 1) eqn:E; [reflexivity|]. apply Nat.leb_gt in E.
+  assert (Hh : 1 <= Nat.div size 2 < size).
+  { split; [apply (Nat.div_le_lower_bound size 2 1); lia|apply Nat.div_lt; lia]. }
+  cbn [Nat.add].
+  destruct (nth_error l (Nat.div size 2)) as [p|] eqn:En.
+  - rewrite (Hgt _ p (proj1 Hh) En). apply IH; [exact Hgt|lia].
+  - apply IH; [exact Hgt|lia].
+Qed.
+
+Lemma bsearch_first {P} (f : P -> comparison) x t :
+  f x = Eq -> (forall p, In p t -> f p = Gt) -> bsearch_by f (x :: t) = inl 0.
+Proof.
+  intros Hx Ht. unfold bsearch_by.
+  rewrite bs_loop_first; [cbn [nth_error]; rewrite Hx; reflexivity| |lia].
+  intros [|j] p Hj Hp; [lia|]. cbn [nth_error] in Hp. apply Ht. eapply nth_error_In. exact Hp.
+Qed.
+
+(* a finite, non-NaN total distance *)
+Definition finite64 (x : F64) : Prop := match x with B754_zero _ | B754_finite _ _ _ _ => True | _ => False end.
+(* strictly positive (not NaN) *)
+Definition positive64 (x : F64) : Prop := D.gt x D.zero = true.
+
+Lemma zero_times_finite x : finite64 x -> exists s, D.mul D.zero x = B754_zero s.
+Proof. destruct x as [s|s| |s m e H]; cbn [finite64]; try contradiction; intros _; eexists; reflexivity. Qed.
+
+Lemma cmp_zero_zero s : cmp_or_equal (B754_zero s) D.zero = Eq.
+Proof. destruct s; reflexivity. Qed.
+
+Lemma cmp_zero_positive s x : positive64 x -> cmp_or_equal (B754_zero s) x = Gt.
+Proof.
+  unfold positive64, cmp_or_equal, D.gt, D.lt, fgt, flt, Bltb, SpecFloat.SFltb.
+  destruct x as [sx|sx| |sx m e H]; destruct s; cbn [B2SF SpecFloat.SFcompare D.zero fzero];
+    try destruct sx; try discriminate; reflexivity.
+Qed.
+
+(* progress 0 (also -0.0 and every negative progress): exactly the first
+   vertex, whenever the total distance is finite and every cumulative length
+   after the first is positive *)
+Theorem position_at_zero first path t :
+  finite64 (dist (D.zero :: t)) -> Forall positive64 t ->
+  position_at (first :: path) (D.zero :: t) D.zero = Done first.
+Proof.
+  intros Hf Hp. unfold position_at, progress_to_dist. rewrite clamp01_zero.
+  destruct (zero_times_finite _ Hf) as (s & ->).
+  unfold idx_of_dist. rewrite bsearch_first.
+  - reflexivity.
+  - apply cmp_zero_zero.
+  - intros p Hin. apply cmp_zero_positive. rewrite Forall_forall in Hp. apply Hp. exact Hin.
+Qed.
